@@ -88,6 +88,10 @@ func (e editSpec) apply(b []byte) []byte {
 			}
 			k--
 		}
+	case "pad-to": // trailing blank lines up to an exact file size
+		for len(b) < e.Len {
+			b = append(b, '\n')
+		}
 	case "set":
 		b = []byte(e.Text)
 	}
